@@ -3,7 +3,7 @@
 //   case line:  F <id> <hexpath> <exts>      exts = "-" (None) | hex,hex,...   (already normalised set)
 //               X <id> <exts>                raw extension list through the real YAML->domain conversion is
 //                                            exercised by mode "resolve"; here X checks matches on the raw set
-//               G <id> <hexpath> <exts> <hexfiles>  is_other_file_in_file_dir (the conjunct added by the repair of D16)
+//               G <id> <hexpath> <exts> <declared> <files>  is_other_file_in_file_dir (the conjunct added by the repair of D16)
 //   result:     <id> tmp=<0|1|P> inwd=<0|1|P> ext=<0|1|P> relevant=<0|1|P>   |   <id> other=<0|1|P> relevant=<0|1|P>
 use super::super::util::*;
 use crate::domain;
@@ -72,24 +72,29 @@ pub fn run(cases: &str) -> i32 {
                 );
             }
             "G" => {
-                // G <id> <hexpath> <exts> <hexfile,hexfile,.. | ->  : watcher.rs is_other_file_in_file_dir (repair D16) and the
-                // whole conjunction as the callback evaluates it now (short-circuit, left to right)
+                // G <id> <hexpath> <exts> <declared hex,hex,..|-> <files hex,hex,..|->  : watcher.rs is_other_file_in_file_dir
+                // (repair D16) and the whole conjunction as the callback evaluates it now (short-circuit, left to right);
+                // declared = every path of the watcher's group, files = those watched as files
                 let id = f[1];
                 let p = pathbuf(&unhex(f[2]));
                 let exts = parse_exts(f[3]);
-                let files: Vec<async_std::path::PathBuf> = if f[4] == "-" {
-                    vec![]
-                } else {
-                    f[4].split(',').map(|h| pathbuf(&unhex(h)).into()).collect()
+                let lst = |x: &str| -> Vec<async_std::path::PathBuf> {
+                    if x == "-" {
+                        vec![]
+                    } else {
+                        x.split(',').map(|h| pathbuf(&unhex(h)).into()).collect()
+                    }
                 };
-                let (p1, files1) = (p.clone(), files.clone());
+                let declared = lst(f[4]);
+                let files = lst(f[5]);
+                let (p1, declared1, files1) = (p.clone(), declared.clone(), files.clone());
                 let other = guarded(move || {
                     let ap: async_std::path::PathBuf = p1.clone().into();
-                    crate::engine::verif_access::verif_is_other_file_in_file_dir(&ap, &files1)
+                    crate::engine::verif_access::verif_is_other_file_in_file_dir(&ap, &declared1, &files1)
                 });
                 let relevant = guarded(move || {
                     let ap: async_std::path::PathBuf = p.clone().into();
-                    !crate::engine::verif_access::verif_is_other_file_in_file_dir(&ap, &files)
+                    !crate::engine::verif_access::verif_is_other_file_in_file_dir(&ap, &declared, &files)
                         && !verif_is_tmp_editor_file(&ap)
                         && !work_dir::is_in_work_dir(&ap)
                         && domain::matches_extensions(ap.as_path().into(), &exts)
